@@ -63,3 +63,21 @@ Proof. exact swo_cmp_of. Qed.
 (* non-vacuity: a stateful comparator (x mod 5) and a range with equivalent elements *)
 Example C03_example : fs_bulk (cmp_of (CKMod 5)) [] [0; 3; 1; 4; 2; 5; 6]%Z = [0; 1; 2; 3; 4]%Z.
 Proof. reflexivity. Qed.
+
+(* Single insertion, lookup and erasure by key of the model are the code's: [insert_val] (Hint.v), [fs_find] and [fs_erase_key]
+   (SetModel.v) are proved equal (HintTV.v) to Gen/HintGen.v, regenerated on every run by translator/hint2coq.py from clang's AST
+   of FlatSet<int>::insert_val, find(const_reference) and erase(const_reference) (iterators as offsets; std::lower_bound and
+   the vector's insert / erase as primitives specified in HintPrims.v). *)
+From Amc Require HintPrims HintTV.
+From Amc.Gen Require HintGen.
+Theorem C03_insert_is_the_regenerated_one :
+  forall cmp l v, HintGen.insert_val_gen cmp l v =
+    (fst (Hint.insert_val cmp l v), Z.of_nat (snd (Hint.insert_val cmp l v)),
+     Nat.eqb (Hint.lb cmp l v) (length l) || cmp v (nth (Hint.lb cmp l v) l 0%Z)).
+Proof. exact HintTV.insert_val_tv. Qed.
+Theorem C03_find_is_the_regenerated_one :
+  forall cmp l v, HintGen.find_gen cmp l v = Z.of_nat (SetModel.fs_find cmp l v).
+Proof. exact HintTV.find_tv. Qed.
+Theorem C03_erase_key_is_the_regenerated_one :
+  forall cmp l v, HintGen.erase_key_gen cmp l v = (fst (SetModel.fs_erase_key cmp l v), Z.of_nat (snd (SetModel.fs_erase_key cmp l v))).
+Proof. exact HintTV.erase_key_tv. Qed.
